@@ -4,6 +4,7 @@ package v1x
 
 import (
 	"bytes"
+	"errors"
 	"fmt"
 	"os"
 	"path/filepath"
@@ -305,6 +306,10 @@ func (o *Oracle) Apply(op Op) Expect {
 	return x
 }
 
+// ErrOutsideDomain marks an operation that was not executed because it is outside the domain of
+// the properties (see Env.Apply).
+var ErrOutsideDomain = errors.New("operation outside the domain: not executed")
+
 // Outcome is what iavl returned.
 type Outcome struct {
 	Err     error
@@ -323,6 +328,17 @@ func (e *Env) Apply(op Op, checkOps bool) Outcome {
 	e.Step++
 	var out Outcome
 	if e.Dead {
+		return out
+	}
+	if op.Kind == "delto" && e.M.Latest > 0 && op.N < e.M.Latest && op.N >= e.M.Base && e.M.Base >= e.M.First && e.M.Exists(e.M.Base) {
+		// Outside every property's domain: the request would delete the committed version the
+		// working tree currently stands on (its unsaved nodes still point into that version). The
+		// planner never asks for it; this guard keeps harnesses that execute something besides the
+		// planned operations (legacy fix-ups, injected writes) inside the domain as well.
+		e.logf("%d:%s[skipped: would delete the working tree's base version %d]", e.Step, op, e.M.Base)
+		e.C.Obs("prunes_of_the_working_trees_base_skipped(outside_domain)", 1)
+		out.Err = ErrOutsideDomain
+		out.Expect.Noop = true
 		return out
 	}
 	e.logf("%d:%s", e.Step, op)
